@@ -158,7 +158,7 @@ CLAIMS['C20'] = ('other',
                  'maketoeplitzCIJ: the acceptance loop ends only with exactly k connections, the Toeplitz template has a zero diagonal so the diagonal stays empty (library contracts of toeplitz / norm.pdf / random_sample assumed). '
                  'makeringlatticeCIJ: loop invariant of the fill loop (after pass c exactly the cells at circular distance <= c hold 1; the pass adds exactly the band at distance c, the clamp np.minimum(...,1) handling the antipodal band of even n), '
                  'the excess is at most the size of the last band, the removal loop clears exactly `overby` distinct cells of the last band: exactly k connections, nearer bands full, farther bands empty, empty diagonal. '
-                 'BOUNDED only: makeevenCIJ, makefractalCIJ (reported count), makerandCIJdegreesfixed (degree sequences), and the parameter grids of all seven generators (n<=8, every k, seeds).',
+                 'makefractalCIJ: the final part (from the probability matrix to the return) is proved as a fragment for an arbitrary exponent matrix: the result is 0/1 with an empty diagonal and the reported count is its number of connections (template side assumed equal to n; the power is uninterpreted). BOUNDED only: makeevenCIJ, the hierarchical template of makefractalCIJ, makerandCIJdegreesfixed (degree sequences), and the parameter grids of all seven generators (n<=8, every k, seeds).',
                  BND_NOTE % 'C20' + ' Proved part: ' + PROOF_NOTE + ' Counting lemmas are assumed in SMT and proved in Lean (section gencount); scipy/RandomState library contracts are assumed.',
                  'pyvc + z3 + Lean-proved counting lemmas for four generators; exhaustive parameter grids (bounded) for the other three', '5/C20')
 CLAIMS['C08'] = ('exploration',
